@@ -2244,6 +2244,81 @@ impl<'de, 'e> de::Deserializer<'de> for YamlDeserializer<'de, 'e> {
                 Ok(key)
             }
 
+            /// Deliver a value that was buffered ahead of its key (merge-derived entries and
+            /// entries whose key needed the value captured first).
+            ///
+            /// Kept out of line: `next_value_seed` sits on the recursion path of every nested
+            /// mapping, and the locals of this rarely taken branch would enlarge each of those
+            /// frames.
+            #[inline(never)]
+            fn buffered_value<Vv>(
+                &mut self,
+                seed: Vv,
+                events: Vec<Ev<'de>>,
+                reference_location: Location,
+                #[cfg(any(feature = "garde", feature = "validator"))] pending_segment: Option<
+                    String,
+                >,
+            ) -> Result<Vv::Value, Error>
+            where
+                Vv: de::DeserializeSeed<'de>,
+            {
+                // Only a value that is replayed somewhere else than where it is written
+                // (through an alias or a merge) has a use-site of its own; the nodes of
+                // a value written in place keep their own positions.
+                let written_in_place =
+                    events.first().map(|ev| ev.location()) == Some(reference_location);
+                let mut replay = ReplayEvents::new(events);
+                if !written_in_place {
+                    replay.ref_override = Some(reference_location);
+                }
+
+                // Definition-site location: where the node is defined in the YAML.
+                // For aliases, this will point at the anchor definition.
+                let defined_location = replay
+                    .peek()?
+                    .map(|ev| ev.location())
+                    .unwrap_or_else(|| replay.last_location());
+
+                #[cfg(any(feature = "garde", feature = "validator"))]
+                {
+                    if let (Some(seg), Some(garde_ref)) = (pending_segment, self.garde.as_mut()) {
+                        let recorder: &mut PathRecorder = garde_ref;
+
+                        let prev = recorder.current.take();
+                        let now = prev.clone().join(seg.as_str());
+                        recorder.current = now.clone();
+                        recorder.map.insert(
+                            now,
+                            Locations {
+                                reference_location,
+                                defined_location,
+                            },
+                        );
+
+                        let de = YamlDeserializer::new_with_path_recorder(
+                            &mut replay,
+                            self.cfg,
+                            recorder,
+                        );
+                        let res = seed.deserialize(de).map_err(|e| {
+                            attach_alias_locations_if_missing(
+                                e,
+                                reference_location,
+                                defined_location,
+                            )
+                        });
+                        recorder.current = prev;
+                        return res;
+                    }
+                }
+
+                let de = YamlDeserializer::new(&mut replay, self.cfg);
+                seed.deserialize(de).map_err(|e| {
+                    attach_alias_locations_if_missing(e, reference_location, defined_location)
+                })
+            }
+
             /// Push a batch of entries to the front of the pending queue in order.
             fn enqueue_entries(&mut self, entries: Vec<PendingEntry<'de>>) {
                 self.pending.reserve(entries.len());
@@ -2269,6 +2344,10 @@ impl<'de, 'e> de::Deserializer<'de> for YamlDeserializer<'de, 'e> {
             type Error = Error;
 
             /// Produce the next key for the visitor, honoring duplicate policy and merges.
+            ///
+            /// Kept out of line: inlined into a visitor's `visit_map` its many locals would
+            /// stay on the stack while the value is deserialized, once per nesting level.
+            #[inline(never)]
             fn next_key_seed<K>(&mut self, seed: K) -> Result<Option<K::Value>, Error>
             where
                 K: de::DeserializeSeed<'de>,
@@ -2595,63 +2674,11 @@ impl<'de, 'e> de::Deserializer<'de> for YamlDeserializer<'de, 'e> {
                 #[cfg(any(feature = "garde", feature = "validator"))]
                 let pending_segment = self.pending_path_segment.take();
 
-                if let Some(events) = self.pending_value.take() {
-                    let (events, reference_location) = events;
-                    // Only a value that is replayed somewhere else than where it is written
-                    // (through an alias or a merge) has a use-site of its own; the nodes of
-                    // a value written in place keep their own positions.
-                    let written_in_place =
-                        events.first().map(|ev| ev.location()) == Some(reference_location);
-                    let mut replay = ReplayEvents::new(events);
-                    if !written_in_place {
-                        replay.ref_override = Some(reference_location);
-                    }
-
-                    // Definition-site location: where the node is defined in the YAML.
-                    // For aliases, this will point at the anchor definition.
-                    let defined_location = replay
-                        .peek()?
-                        .map(|ev| ev.location())
-                        .unwrap_or_else(|| replay.last_location());
-
+                if let Some((events, reference_location)) = self.pending_value.take() {
                     #[cfg(any(feature = "garde", feature = "validator"))]
-                    {
-                        if let (Some(seg), Some(garde_ref)) = (pending_segment, self.garde.as_mut())
-                        {
-                            let recorder: &mut PathRecorder = garde_ref;
-
-                            let prev = recorder.current.take();
-                            let now = prev.clone().join(seg.as_str());
-                            recorder.current = now.clone();
-                            recorder.map.insert(
-                                now,
-                                Locations {
-                                    reference_location,
-                                    defined_location,
-                                },
-                            );
-
-                            let de = YamlDeserializer::new_with_path_recorder(
-                                &mut replay,
-                                self.cfg,
-                                recorder,
-                            );
-                            let res = seed.deserialize(de).map_err(|e| {
-                                attach_alias_locations_if_missing(
-                                    e,
-                                    reference_location,
-                                    defined_location,
-                                )
-                            });
-                            recorder.current = prev;
-                            return res;
-                        }
-                    }
-
-                    let de = YamlDeserializer::new(&mut replay, self.cfg);
-                    seed.deserialize(de).map_err(|e| {
-                        attach_alias_locations_if_missing(e, reference_location, defined_location)
-                    })
+                    return self.buffered_value(seed, events, reference_location, pending_segment);
+                    #[cfg(not(any(feature = "garde", feature = "validator")))]
+                    return self.buffered_value(seed, events, reference_location);
                 } else {
                     // Live stream: get both locations for potential alias error reporting.
                     let defined_location = self
